@@ -691,6 +691,85 @@ Proof.
       rewrite newly_incl; [reflexivity|exact Hnd|apply incl_refl].
 Qed.
 
+
+(* ------------------------------------------------------------------ check 10: OnDowntimeTriggered for everything that became triggered *)
+Definition CmpEv (o : list out) : list dt -> list dt -> Prop :=
+  Forall2 (fun d d' => d_id d' = d_id d /\ (d_trigger d' = d_trigger d \/ In (d_id d) (c5_trig_ids o))).
+
+Lemma CmpEv_add_trigger o pre post p c : CmpEv o pre post -> CmpEv o pre (add_trigger p c post).
+Proof.
+  induction 1; cbn; constructor; [|assumption].
+  destruct ((d_id y =? p) && negb (existsb (Z.eqb c) (d_triggers y))); assumption.
+Qed.
+
+Lemma do_dt_add_CmpEv c now id fixed start end_ dur trig_by parent owned f :
+  let r := do_dt_add c now id fixed start end_ dur trig_by parent owned f in
+  CmpEv (snd r) (f_dts f ++ [new_dt now id fixed start end_ dur parent owned]) (f_dts (fst r)).
+Proof.
+  cbn zeta. unfold do_dt_add. fold (new_dt now id fixed start end_ dur parent owned).
+  set (d := new_dt now id fixed start end_ dur parent owned). set (ds0 := f_dts f ++ [d]).
+  match goal with |- context [let '(ds1, o1) := ?X in _] => remember X as x1 eqn:E1 end.
+  assert (Rtol (snd x1) ds0 (fst x1)) as H1.
+  { subst x1. destruct (negb fixed && s_has_cr (f_st f) && negb (is_ok (c_kind (fc_base c)) (s_raw (f_st f))));
+      [apply trigger_dt_Rtol|apply Rtol_refl]. }
+  clear E1. destruct x1 as [ds1 o1]. cbn [fst snd] in H1.
+  match goal with |- context [let '(ds2, o2) := ?X in _] => remember X as x2 eqn:E2 end.
+  assert (Rtol (snd x2) ds1 (fst x2)) as H2.
+  { subst x2. destruct (find_dt id ds1) as [d1|]; [|apply Rtol_refl].
+    destruct (fixed && dt_can_be_triggered now d1); [|apply Rtol_refl].
+    pose proof (trigger_dt_Rtol (chain_fuel ds1) now (f_paused f) id (Z.max start now) ds1) as Hi.
+    destruct (trigger_dt (chain_fuel ds1) now (f_paused f) id (Z.max start now) ds1) as [dsx ox]. cbn [fst snd] in *.
+    eapply Rtol_mono; [|exact Hi]. intros i Hi'. rewrite trig_ids_app. apply in_or_app. right. exact Hi'. }
+  clear E2. destruct x2 as [ds2 o2]. cbn [fst snd set_dts f_dts] in *.
+  assert (CmpEv (o1 ++ o2 ++ [ODone]) ds0 ds2) as HC.
+  { apply Rtol_cmp. rewrite app_assoc. eapply Rtol_mono; [|eapply Rtol_app; eassumption].
+    intros i Hi. rewrite trig_ids_app. apply in_or_app. left. exact Hi. }
+  destruct (trig_by =? 0); [exact HC|apply CmpEv_add_trigger; exact HC].
+Qed.
+
+Lemma step_check_trigev c now prev f o :
+  DtInv now f -> c5_wf_step prev (c5_mk c now f o) = true -> c5_chk_trigev (c5_mk c now f o) = true.
+Proof.
+  intros [Hnd Hlsc] Hwf. unfold c5_chk_trigev.
+  unfold c5_wf_step in Hwf. cbn [c5_mk c5_now c5_op c5_pre] in Hwf.
+  apply andb_prop in Hwf. destruct Hwf as [Hwf Hop]. apply andb_prop in Hwf. destruct Hwf as [Hwf Hsc].
+  destruct o; cbn [c5_in_scope] in Hsc; try discriminate; cbn [c5_mk c5_pre c5_post c5_outs full_step].
+  - (* result *)
+    destruct (rejected now (f_st f) r) eqn:Hrej.
+    + unfold do_result. rewrite Hrej. cbn [fst snd]. rewrite newly_incl; [reflexivity|exact Hnd|apply incl_refl].
+    + destruct (do_result_shape c now r f Hrej) as (Hd & _ & oa & ob & Ho & _ & _). cbn zeta in Hd, Ho.
+      rewrite Hd, Ho.
+      destruct (negb (is_ok (c_kind (fc_base c)) (r_state r))); cbn [fst snd].
+      * apply (Rtol_trigev _ (f_dts f)); [exact Hnd|reflexivity|]. apply Rtol_cmp.
+        eapply Rtol_mono; [|apply trigger_all_Rtol].
+        intros i Hi. rewrite !trig_ids_app. apply in_or_app. right. apply in_or_app. left. exact Hi.
+      * rewrite newly_incl; [reflexivity|exact Hnd|apply incl_refl].
+  - (* ack read *)
+    pose proof (get_ack_facts now f) as (A1 & _). destruct (get_ack now f) as [[a f'] o']. cbn [fst snd] in *.
+    rewrite A1, newly_incl; [reflexivity|exact Hnd|apply incl_refl].
+  - (* add *)
+    cbn [c5_op c5_mk c5_pre] in Hop. apply andb_prop in Hop. destruct Hop as [Hfr _].
+    apply negb_true_iff in Hfr. apply has_false_notin in Hfr.
+    apply (Rtol_trigev _ (f_dts f ++ [new_dt now id fixed start end_ duration parent owned])).
+    + rewrite ids_app. apply nodup_snoc; assumption.
+    + intros i. unfold c5_trig_of. destruct (Z.eq_dec id i) as [<-|E].
+      * rewrite (find_dt_app_fresh id (f_dts f) (new_dt now id fixed start end_ duration parent owned) Hfr eq_refl). cbn [new_dt d_trigger].
+        destruct (find_dt id (f_dts f)) eqn:F; [|reflexivity]. exfalso. apply find_dt_some in F.
+        destruct F as [F1 F2]. apply Hfr. rewrite <- F2. unfold ids. apply in_map. exact F1.
+      * rewrite (find_dt_app_old i (f_dts f) (new_dt now id fixed start end_ duration parent owned)); [reflexivity|exact E].
+    + apply do_dt_add_CmpEv.
+  - (* remove *)
+    destruct (do_dt_remove_filter now id children r f) as (g & Hg & _).
+    rewrite Hg, newly_incl; [reflexivity|exact Hnd|]. intros x Hx. apply filter_In in Hx. tauto.
+  - (* start timer *)
+    apply (Rtol_trigev _ (f_dts f)); [exact Hnd|reflexivity|]. apply Rtol_cmp. apply start_timer_Rtol.
+  - (* cleanup *)
+    destruct (do_dt_cleanup_filter now id f) as (g & Hg & _).
+    rewrite Hg, newly_incl; [reflexivity|exact Hnd|]. intros x Hx. apply filter_In in Hx. tauto.
+  - (* pause *)
+    cbn [fst snd set_paused f_dts]. rewrite newly_incl; [reflexivity|exact Hnd|apply incl_refl].
+Qed.
+
 (* ------------------------------------------------------------------ all proved checks along a run *)
 
 Lemma same_static_entry a b : c5_same_static a b = true -> d_entry b = d_entry a.
@@ -715,10 +794,10 @@ Proof.
     destruct o; cbn [added_by] in Hd; try destruct Hd as [<-|[]]; try destruct Hd. cbn. lia.
 Qed.
 
-(* every check of the oracle except 10 (OnDowntimeTriggered events) *)
+(* every check of the oracle except 12 (chains beyond the directly chained downtimes) *)
 Definition c5_step_all (k : kind) (s : c5_ostep) : bool :=
   c5_chk_mono s && c5_chk_nolate s && c5_chk_removed s && c5_chk_end s && c5_chk_owned s && c5_chk_cleanup s
-  && c5_chk_result k s && c5_chk_add s && c5_chk_start s && c5_chk_depth s.
+  && c5_chk_result k s && c5_chk_add s && c5_chk_start s && c5_chk_trigev s && c5_chk_depth s.
 
 (* none of the recorded findings' signatures along the run *)
 Fixpoint c5_clean_run (c : fcfg) (f : full) (h : list (Z * op)) : bool :=
@@ -745,7 +824,7 @@ Proof.
     destruct (step_checks_removal c now prev f o Hi Hw) as (H3 & H4 & H5 & H6). cbn zeta in H3, H4, H5, H6.
     destruct (step_check_start_inv c now prev f o Hinv' Hw) as (H9 & _). cbn zeta in H9.
     rewrite H1, H2, H3, H4, H5, H6, (step_check_result c now prev f o Hi Hw),
-      (step_check_add c now prev f o Hi Hw), (H9 S2 S3), step_check_depth. reflexivity.
+      (step_check_add c now prev f o Hi Hw), (H9 S2 S3), (step_check_trigev c now prev f o Hi Hw), step_check_depth. reflexivity.
   - apply IH with now; [|exact Hrest|exact Hclr]. apply (step_DtInv2 c now prev f o Hinv' Hw S3).
 Qed.
 
